@@ -38,7 +38,7 @@ impl Property for C01 {
             "explicit-state BFS over all histories of Add(delta)/Fetch/Cancel(j) on the real CQueue<u32>, delta in {{0,1,t-1,t,t+1,Y-1,Y,Y+1,3Y+2}}, \
              configurations (n,t,depth) = {:?}; every transition re-executes the complete history on a fresh queue and compares every step with a reference list \
              (len, fetched id/time, minimality, dead-cancel is a no-op), the queue is additionally drained through fetch_next after every history (not only the first one reaching a state); \
-             states are deduplicated per worker by a canonical form of the implementation snapshot (ids renamed to ranks) plus the reference's pending list (merged states are not expanded again); independently of that key, 4 configurations are explored to depth 5 (thorough 6) without merging any states; \
+             states are deduplicated per worker by a canonical form of the implementation snapshot (ids renamed to ranks) plus the reference's pending list (merged states are not expanded again); plus scripted histories that wrap the 64-slot ring buffer of the zero-delay bucket before cancelling in it; independently of that key, 4 configurations are explored to depth 5 (thorough 6) without merging any states; \
              distinct_nontrivial = distinct canonical states with at least one pending event (per worker; work below depth 2 is partitioned over workers, \
              so a state reachable under two partitions is counted by both)",
             configs(tier)
@@ -60,6 +60,8 @@ impl Property for C01 {
             "cancel_live_bucketed_at_current_time",
             "cancel_live_future",
             "cancel_dead_handle",
+            "exploration_without_state_merging",
+            "cancel_in_a_wrapped_zero_delay_ring",
         ]
     }
     fn crash_is_violation(&self) -> bool {
@@ -68,6 +70,29 @@ impl Property for C01 {
     fn explore(&self, ctx: &mut Ctx) {
         for (n, t, depth) in configs(ctx.tier) {
             bfs(ctx, n, t, depth, false, true, true, "violation");
+        }
+        // long histories through the zero-delay bucket: its ring buffer (64 slots) is wrapped when the cancels happen
+        for (n, t) in [(1usize, 1u64), (4, 5)] {
+            for victim in [60usize, 63, 64, 66, 69] {
+                if !ctx.mine() {
+                    continue;
+                }
+                use vcheck::cqlab::Op;
+                let mut h: Vec<Op> = vec![];
+                h.extend(std::iter::repeat_n(Op::Add(0), 60));
+                h.extend(std::iter::repeat_n(Op::Fetch, 58));
+                h.extend(std::iter::repeat_n(Op::Add(0), 10));
+                h.push(Op::Cancel(victim));
+                h.push(Op::Cancel(61));
+                h.push(Op::Add(t));
+                let case = vcheck::cqlab::case_json(n, t, &h, false);
+                ctx.begin(|| case.clone());
+                ctx.out.evaluations += 1;
+                ctx.hit("cancel_in_a_wrapped_zero_delay_ring");
+                if let Err(d) = vcheck::cqlab::replay_case(&case) {
+                    ctx.violation("violation", || case.clone(), format!("(n={n}, t={t}ns) 60 zero-delay adds, 58 fetches, 10 more adds, cancels: {d}"));
+                }
+            }
         }
         // every history up to a smaller depth without merging states: independent of what the
         // canonical key can see of the implementation
